@@ -148,7 +148,8 @@ CLAIMED["C07"] = dict(
          "release/debug twins with identical row operands whose side conditions are checked (start column only reaches add_assign_rows, "
          "the operation is recorded unconditionally, A is dead after the fifth phase in release); planned, cached and direct (no_std) "
          "encoders use the one sparse-threshold constant; CPU paths are gated and dispatched as in C11; R5: every loop of the sparse back-end "
-         "over its bit-packed dense tail visits exactly ceil(nd/64) words per row, for all 64 residues of nd = 64q + r.",
+         "over its bit-packed dense tail visits exactly ceil(nd/64) words per row, for all 64 residues of nd = 64q + r; R6: the dense back-end's row addition hands over word ranges "
+         "[row*rww+off, +len) with off <= start_col/64 and off+len = rww in both rows (argument terms decided on all residues mod 64).",
     note="Does not decide that dense and sparse solves agree (C16) nor that errata 11 is mathematically valid.",
     technique="static analysis: cross-configuration MIR diff by source span with an explicit exception table + dataflow side conditions")
 CLAIMED["C09"] = dict(
